@@ -674,6 +674,27 @@ pub open spec fn file_wf(f: &AsepriteFile) -> bool {
         {"kind": "fn", "file": "cel", "name": "is_empty", "impl_of": "Cel", "impl_header": "<'a> Cel<'a>", "ret": "r",
          "requires": "        (self.cel_id.frame as int) < self.file.framedata.data.len(),",
          "ensures": "        r == (self.file.framedata.at(self.cel_id.frame as int, self.cel_id.layer as int) is None),"},
+        {"kind": "verbatim", "fn_name": "routes_agree", "text": """
+/// C19 as a lemma over the contracts above (a CLIENT of the public signatures, written here, calling the extracted real
+/// functions positionally exactly as the documentation shows them): the three routes to the cel at (frame fr, layer l)
+/// denote the same cel of the same file, and that cel reports the coordinates it was asked for.
+fn routes_agree(f: &AsepriteFile, fr: u32, l: u32)
+    requires file_wf(f), fr < f.num_frames as u32, (l as int) < f.layers.layers.len(),
+{
+    let a = f.cel(fr, l);                 // direct: (frame, layer)
+    let frame = f.frame(fr);
+    let b = frame.layer(l);               // frame, then layer
+    let layer = f.layer(l);
+    let c = layer.frame(fr);              // layer, then frame
+    assert(a.cel_id.frame == b.cel_id.frame && b.cel_id.frame == c.cel_id.frame);
+    assert(a.cel_id.layer == b.cel_id.layer && b.cel_id.layer == c.cel_id.layer);
+    assert(a.file == f && b.file == f && c.file == f);
+    let (af, al) = (a.frame(), a.layer());
+    assert(af == fr && al == l);
+    let (e1, e2, e3) = (a.is_empty(), b.is_empty(), c.is_empty());
+    assert(e1 == e2 && e2 == e3);
+}
+"""},
     ],
 }
 
@@ -1500,6 +1521,29 @@ UNITS["compose"] = {
                        "                },\n"
                        "                forall|cx: int, cy: int| 0 <= cx < image.w() && 0 <= cy < image.h() ==>\n"
                        "                    #[trigger] image.at(cx, cy) == frame_px(self, cels_of(self.framedata.data[frame as int]@), it.index@ as int, cx, cy),")}},
+        {"kind": "verbatim", "fn_name": "single_visible_layer_frame_is_the_cel_image", "text": """
+/// C19 as a lemma over the contracts of frame_image and layer_image (a CLIENT written here, calling the extracted real
+/// functions): if exactly one cel of frame fr - the k0-th in layer order, in layer l - belongs to a visible layer, the
+/// frame image equals that cel's image, pixel for pixel.
+fn single_visible_layer_frame_is_the_cel_image(f: &AsepriteFile, fr: u16, l: u16, Ghost(k0): Ghost<int>)
+    requires file_ok(f), (fr as int) < f.framedata.data.len(),
+        0 <= k0 < cels_of(f.framedata.data[fr as int]@).len(), cels_of(f.framedata.data[fr as int]@)[k0].0 == l as u32,
+        forall|j: int| 0 <= j < cels_of(f.framedata.data[fr as int]@).len() ==>
+            (spec_visible(f.layers.layers@, f.layers.parents@, (#[trigger] cels_of(f.framedata.data[fr as int]@)[j]).0 as int) <==> j == k0),
+{
+    let frame_img = f.frame_image(fr);
+    let cel_img = f.layer_image(CelId { frame: fr, layer: l });
+    proof {
+        let cels = cels_of(f.framedata.data[fr as int]@);
+        lemma_cels_of(f.framedata.data[fr as int]@);
+        assert(f.framedata.at(fr as int, l as int) == Some(cels[k0].1));
+        assert forall|cx: int, cy: int| 0 <= cx < frame_img.w() && 0 <= cy < frame_img.h() implies #[trigger] frame_img.at(cx, cy) == cel_img.at(cx, cy) by {
+            lemma_single_visible(f, cels, cels.len() as int, k0, cx, cy);
+        }
+        assert(frame_img.w() == cel_img.w() && frame_img.h() == cel_img.h());
+    }
+}
+"""},
     ],
 }
 
@@ -1703,6 +1747,12 @@ pub open spec fn tileset_validated(src: Tileset<RawPixels>, dst: Tileset<Pixels>
     &&& dst.tile_size == src.tile_size && dst.base_index == src.base_index && dst.name == src.name && dst.external_file == src.external_file
 }
 """},
+        {'kind': 'fn', 'file': 'tileset', 'name': 'id', 'key': 'Tileset::id', 'impl_of': 'Tileset', 'impl_filter': 'impl<P>\\s+Tileset<P>', 'impl_header': '<P> Tileset<P>', 'ret': 'r', 'ensures': '        r == self.id,'},
+        {'kind': 'fn', 'file': 'tileset', 'name': 'empty_tile_is_id_zero', 'key': 'Tileset::empty_tile_is_id_zero', 'impl_of': 'Tileset', 'impl_filter': 'impl<P>\\s+Tileset<P>', 'impl_header': '<P> Tileset<P>', 'ret': 'r', 'ensures': '        r == self.empty_tile_is_id_zero,'},
+        {'kind': 'fn', 'file': 'tileset', 'name': 'tile_count', 'key': 'Tileset::tile_count', 'impl_of': 'Tileset', 'impl_filter': 'impl<P>\\s+Tileset<P>', 'impl_header': '<P> Tileset<P>', 'ret': 'r', 'ensures': '        r == self.tile_count,'},
+        {'kind': 'fn', 'file': 'tileset', 'name': 'tile_size', 'key': 'Tileset::tile_size', 'impl_of': 'Tileset', 'impl_filter': 'impl<P>\\s+Tileset<P>', 'impl_header': '<P> Tileset<P>', 'ret': 'r', 'ensures': '        r == self.tile_size,'},
+        {'kind': 'fn', 'file': 'tileset', 'name': 'base_index', 'key': 'Tileset::base_index', 'impl_of': 'Tileset', 'impl_filter': 'impl<P>\\s+Tileset<P>', 'impl_header': '<P> Tileset<P>', 'ret': 'r', 'ensures': '        r == self.base_index,'},
+        {'kind': 'fn', 'file': 'tileset', 'name': 'external_file', 'key': 'Tileset::external_file', 'impl_of': 'Tileset', 'impl_filter': 'impl<P>\\s+Tileset<P>', 'impl_header': '<P> Tileset<P>', 'ret': 'r', 'ensures': '        (r is Some) == (self.external_file is Some), r is Some ==> *(r->0) == self.external_file->0,'},
         {"kind": "fn", "file": "tileset", "name": "from_raw", "impl_of": "TilesetId", "ret": "r", "ensures": "        r.0 == value,"},
         {"kind": "fn", "file": "tileset", "name": "new", "key": "TilesetsById::new", "impl_of": "TilesetsById", "impl_filter": r"impl<P>\s+TilesetsById<P>", "impl_header": "<P> TilesetsById<P>", "ret": "r",
          "ensures": "        r.0@ == Map::<TilesetId, Tileset<P>>::empty(),"},
@@ -2004,7 +2054,7 @@ pub open spec fn seen(rem: Seq<(&u32, &ColorPaletteEntry)>, j: int, m: u32) -> b
 # ------------------------------------------------------------------------------------------------
 UNITS["tilemap_api"] = {
     "prelude_sections": UNITS["compose"]["prelude_sections"],
-    "items": [it for it in UNITS["compose"]["items"] if not (it.get("kind") == "fn" and it["name"] in ("frame_image", "layer_image", "write_cel", "write_raw_cel_to_image", "write_tilemap_cel_to_image", "tile_slice"))] + [
+    "items": [it for it in UNITS["compose"]["items"] if not (it.get("kind") == "verbatim" and "single_visible_layer_frame_is_the_cel_image" in it.get("text", ""))] + [
         {"kind": "struct", "file": "cel", "name": "Cel", "keep": None},
         {"kind": "struct", "file": "tilemap", "name": "Tilemap", "keep": None},
         {"kind": "fn", "file": "tileset", "name": "from", "key": "TileSize::into_pair", "impl_of": "TileSize", "impl_filter": r"impl From<TileSize> for \(u32, u32\)", "impl_header": "From<TileSize> for (u32, u32)", "ret": "r"},
@@ -2049,6 +2099,29 @@ pub open spec fn ceil_div(a: int, b: int) -> int { (a + b - 1) / b }
                      "            // the logical size covers the whole canvas: ceil(canvas / tile size) tiles\n"
                      "            &&& (r->0).logical_size.0 as int == ceil_div(self.width as int, ts.tile_size.width as int)\n"
                      "            &&& (r->0).logical_size.1 as int == ceil_div(self.height as int, ts.tile_size.height as int) }),")},
+        {"kind": "struct", "file": "file", "name": "Frame", "keep": None},
+        {"kind": "fn", "file": "file", "name": "image", "key": "Frame::image", "impl_of": "Frame", "impl_header": "<'a> Frame<'a>", "ret": "r",
+         "requires": "        file_ok(self.file), (self.index as int) < self.file.framedata.data.len(), self.index <= 65535,",
+         "ensures": ("        // Frame::image is frame_image of this frame: the fold of its cels in layer order, hidden layers skipped\n"
+                     "        r.w() == self.file.width, r.h() == self.file.height,\n"
+                     "        forall|cx: int, cy: int| 0 <= cx < r.w() && 0 <= cy < r.h() ==>\n"
+                     "            #[trigger] r.at(cx, cy) == frame_px(self.file, cels_of(self.file.framedata.data[self.index as int]@), cels_of(self.file.framedata.data[self.index as int]@).len() as int, cx, cy),")},
+        {"kind": "fn", "file": "cel", "name": "image", "key": "Cel::image", "impl_of": "Cel", "impl_header": "<'a> Cel<'a>", "ret": "r",
+         "requires": "        file_ok(self.file), (self.cel_id.frame as int) < self.file.framedata.data.len(),",
+         "ensures": ("        r.w() == self.file.width, r.h() == self.file.height,\n"
+                     "        forall|cx: int, cy: int| 0 <= cx < r.w() && 0 <= cy < r.h() ==>\n"
+                     "            #[trigger] r.at(cx, cy) == (match self.file.framedata.at(self.cel_id.frame as int, self.cel_id.layer as int) {\n"
+                     "                Some(c) => cel_px(self.file, &c, Rgba([0u8, 0u8, 0u8, 0u8]), cx, cy),\n"
+                     "                None => Rgba([0u8, 0u8, 0u8, 0u8]),\n"
+                     "            }),")},
+        {"kind": "fn", "file": "tilemap", "name": "image", "key": "Tilemap::image", "impl_of": "Tilemap", "impl_header": "<'a> Tilemap<'a>", "ret": "r",
+         "requires": "        file_ok(self.cel.file), (self.cel.cel_id.frame as int) < self.cel.file.framedata.data.len(),",
+         "ensures": ("        // C19 / C08: a tilemap's image is the image of its cel\n        r.w() == self.cel.file.width, r.h() == self.cel.file.height,\n"
+                     "        forall|cx: int, cy: int| 0 <= cx < r.w() && 0 <= cy < r.h() ==>\n"
+                     "            #[trigger] r.at(cx, cy) == (match self.cel.file.framedata.at(self.cel.cel_id.frame as int, self.cel.cel_id.layer as int) {\n"
+                     "                Some(c) => cel_px(self.cel.file, &c, Rgba([0u8, 0u8, 0u8, 0u8]), cx, cy),\n"
+                     "                None => Rgba([0u8, 0u8, 0u8, 0u8]),\n"
+                     "            }),")},
         {"kind": "fn", "file": "tilemap", "name": "width", "key": "Tilemap::width", "impl_of": "Tilemap", "impl_header": "<'a> Tilemap<'a>", "ret": "r", "ensures": "        r == self.logical_size.0 as u32,"},
         {"kind": "fn", "file": "tilemap", "name": "height", "key": "Tilemap::height", "impl_of": "Tilemap", "impl_header": "<'a> Tilemap<'a>", "ret": "r", "ensures": "        r == self.logical_size.1 as u32,"},
         {"kind": "fn", "file": "tilemap", "name": "tile_size", "key": "Tilemap::tile_size", "impl_of": "Tilemap", "impl_header": "<'a> Tilemap<'a>", "ret": "r",
